@@ -24,6 +24,7 @@ GetTyped == GetValue \cup {[g |-> "int", od |-> FALSE, d |-> NoVal], [g |-> "uin
 \* objects of user types: content = two fields; the type names are ordinary names, some of which begin like a built-in type name
 Ob(tn, a, b) == [t |-> "obj", tn |-> tn, c |-> <<a, b>>]
 ValsObj1 == {Ob("intPair", 1, 1), Ob("intPair", 1, 2), Ob("intPair", 2, 1)}
+ValsObjQ == {Ob("intPair", 1, 1), Ob("intPair", 1, 2)}
 ValsObj2 == ValsObj1 \cup {Ob("boolean_flag", 1, 1), Ob("boolean_flag", 1, 2)}
 ValsMixed == {I1, Ob("intPair", 1, 1), Ob("intPair", 1, 2)}
 Typed1 == {[ty |-> "intPair", data |-> <<42, 0, 0, 1>>]}
